@@ -34,7 +34,8 @@ try:
             dst = '/verif/seeded/%s-%s' % (pid, name)
             os.makedirs(dst, exist_ok=True)
             open(dst + '/patch.diff', 'w').write(diff)
-            shutil.copy(src + '/demo.py', dst + '/demo.py')
+            if os.path.abspath(src) != os.path.abspath(dst):
+                shutil.copy(src + '/demo.py', dst + '/demo.py')
             try:
                 meta = json.load(open(src + '/meta.json'))
             except Exception:
